@@ -40,7 +40,10 @@ CONSTRUCT_PRELUDE = ("struct P3(a: int, b: int, c: int)\nunion U3(a: int, b: str
                      "fn ufd(a: int, b: int, c: int ?= 5)->int{ display(\"body ran\").len() + a + b + c }\n"
                      "let lam3 = (a: int, b: int, c: int)->{ display(\"body ran\").len() + a };\n"
                      "fn apply3(f: (int, int, int)->(int), a: int, b: int, c: int)->int{ f(a, b, c) }\n"
-                     "fn mk3(k: int)->(int)->(int){ (x: int)->{ display(\"body ran\").len() + x + k } }\n")
+                     "fn mk3(k: int)->(int)->(int){ (x: int)->{ display(\"body ran\").len() + x + k } }\n"
+                     "fn tl_err(n: int, junk: int)->int{ if(n <= 0, 7, tl_err(n - 1, if(n == 2, error(\"E0\"), 0))) }\n"
+                     "fn nt_err(n: int, junk: int)->int{ if(n <= 0, 7, 0 + nt_err(n - 1, if(n == 2, error(\"E0\"), 0))) }\n"
+                     "fn tl_dflt(n: int, junk: int ?= 0)->int{ if(n <= 0, 7, if(n == 2, tl_dflt(n - 1, error(\"E0\")), tl_dflt(n - 1))) }\n")
 
 # ---- (B) wrappers around a computation X (type int) ----------------------------------------
 WRAPPERS = [
@@ -59,6 +62,15 @@ WRAPPERS = [
     ("n_largest", "[3, 1, 2].n_largest(2, (a: int, b: int)->{{ cmp(a, b) + 0 * {X} }}).len()"),
     ("set_hash", "set((q: int)->{{ 0 * {X} }}, (a: int, b: int)->{{ a == b }}).add(1).add(2).len()"),
     ("in_struct", "(S1({X}))::v"), ("in_tuple_if_error", "if_error(({X}, 1), (0, 0))::item0"), ("display_arg", "display({X})"),
+    ("gen_skip_prefix", "[0, 1, 2, 3, 4, 5].to_generator().map((q: int)->{{ if(q == 2, {X}, q) }}).skip(4).to_array().len()"),
+    ("gen_skip_take_prefix", "count().to_generator().map((q: int)->{{ if(q == 1, {X}, q) }}).skip(3).take(2).to_array().len()"),
+    ("gen_skip_until", "[0, 1, 2, 3].to_generator().map((q: int)->{{ if(q == 1, {X}, q) }}).skip_until((q: int)->{{ q >= 3 }}).to_array().len()"),
+    ("gen_filter_dropped", "[0, 1, 2, 3].to_generator().map((q: int)->{{ if(q == 1, {X}, q) }}).filter((q: int)->{{ q >= 3 }}).to_array().len()"),
+    ("gen_last", "[0, 1, 2, 3].to_generator().map((q: int)->{{ if(q == 1, {X}, q) }}).last()"),
+    ("gen_nth", "[0, 1, 2, 3].to_generator().map((q: int)->{{ if(q == 1, {X}, q) }}).nth(1, (q: int)->{{ q >= 2 }}).has_value().if(1, 0)"),
+    ("gen_len", "[0, 1, 2, 3].to_generator().map((q: int)->{{ if(q == 1, {X}, q) }}).len()"),
+    ("gen_distinct_dropped", "[0, 0, 0].to_generator().map((q: int)->{{ 0 * {X} }}).distinct().len()"),
+    ("gen_chunks", "[0, 1, 2, 3].to_generator().map((q: int)->{{ if(q == 1, {X}, q) }}).chunks(2).to_array().len()"),
     ("then", "then(true, {X}).has_value().if(1, 0)"), ("successors", "successors(0, (q: int)->{{ q + 1 + 0 * {X} }}).take(3).to_array().len()"),
 ]
 XS = [
@@ -186,6 +198,8 @@ UNTYPED = [("eq_l", 'error("E0") == 1', "E0"), ("eq_r", '1 == error("E1")', "E1"
            ("ne", 'error("E0") != 2', "E0"), ("to_str", 'to_str(error("E0"))', "E0"), ("hash", 'hash(error("E0"))', "E0"),
            ("fstring", 'f"a{error("E0")}b"', "E0"), ("display", 'display(error("E0"))', "E0"), ("array", '[error("E0"), error("E1")]', "E0"),
            ("tuple", '(1, error("E1"), error("E2"))', "E1"), ("some", 'some(error("E0"))', "E0"), ("user_fn", 'uf3(error("E0"), 2, error("E2"))', "E0"),
+           ("tail_self_call_error_arg", "tl_err(3, 0)", "E0"), ("nontail_self_call_error_arg", "nt_err(3, 0)", "E0"), ("tail_self_call_error_arg_default", "tl_dflt(4)", "E0"),
+           ("tail_self_call_error_arg_in_callback", "[3, 4].map((q: int)->{ tl_err(q, 0) }).to_array()", "E0"),
            ("if_cond", 'if(error("E0"), 1, 2)', "E0"), ("and_first", 'error("E0") && true', "E0"), ("index", '[1, 2][error("E0")]', "E0")]
 
 
